@@ -212,7 +212,14 @@ def build(case):
             steps.append(gen_block(rng, ids, tasks, 1, shared))
             steps += waits(rng, ids, 1)
         roots.append({'name': 'subject%d' % number, 'steps': steps})
-    program = {'objects': objects, 'roots': roots, 'start': 0, 'till': None}
+    # a negative start time puts date 0 - and every other date of the grid - into the future
+    start = rng.choice([0, 0, 0, -3, -0.5])
+    if start and tasks:
+        # helpers finish at their (absolute) date: keeps one change per virtual time
+        for child in roots[0]['steps'][0]['children']:
+            wait = child['steps'][0]
+            wait['n'] = {'k': 'ge', 't': wait['n']['d']}
+    program = {'objects': objects, 'roots': roots, 'start': start, 'till': None}
     return program, changes
 
 
